@@ -1,8 +1,8 @@
 META = {
     "level": "model_checking",
     "technique": "symbolic (Dolev-Yao) TLA+ model of the key exchange with a one-field man in the middle and re-exchanges (Kex.tla) model-checked by TLC; every scenario TLC emits replayed as real handshakes between two paramiko Transports for kex methods x host-key algorithms; the recorded K/H/session id/signature facts of every exchange judged by TLC with the trace spec",
-    "text": "TLC checks on the symbolic model that a finished exchange implies equal K and H and a signature over H verifying under the shown key, that the session id is the first H for ever (invariant and action property), and that any altered reply field makes the client abort (four seeded design errors must be caught); TLC emits every (altered field, number of re-exchanges) scenario; each is run on real client/server Transports over an in-memory link whose plaintext man in the middle changes the value of exactly one field of the server's reply (host key swapped for another valid key / one bit, f or Q_S changed / replaced by the attacker's valid value, signature bits, signature algorithm name, gex p, gex g); both peers log K, H, session_id at _set_K_H, the client logs _verify_key / NEWKEYS; the signature is re-verified with the cryptography package directly and H is rebuilt from the wire; TLC judges every exchange of every session with Kex_Trace",
-    "note": "trusted: TLC, the in-memory link and its packet parser, the cryptography package for the independent signature check; re-exchanges are honest (they travel encrypted, C02); alterations change a field's value, never only its encoding; gss-* kex is not exercised",
+    "text": "TLC checks on the symbolic model that a finished exchange implies equal K and H and a signature over H verifying under the shown key, that the session id is the first H for ever (invariant and action property), and that an altered reply field in ANY exchange makes the client abort and that after every exchange the stored host key is the server's (five seeded design errors must be caught, among them 'verify only when the host key blob is new'); TLC emits every (altered field, number of re-exchanges) scenario; each is run on real client/server Transports over an in-memory link whose plaintext man in the middle (first exchange) or the harness-owned server end (re-exchanges 1..3) changes the value of exactly one field of the server's reply (host key swapped for another valid key / one bit, f or Q_S changed / replaced by another valid value, signature bits / signature over other data / signature by an unrelated key, signature algorithm name, gex p, gex g); both peers log K, H, session_id at _set_K_H, the client logs _verify_key / NEWKEYS; the signature is re-verified with the cryptography package directly and H is rebuilt from the wire; TLC judges every exchange of every session with Kex_Trace",
+    "note": "trusted: TLC, the in-memory link and its packet parser, the cryptography package for the independent signature check; re-exchange faults are injected at the server end, not on the (encrypted) wire; alterations change a field's value, never only its encoding; gss-* kex is not exercised",
 }
 import random
 import time
@@ -12,9 +12,10 @@ from harness.drivers import kex as drv
 INVS = ["Agreement", "HostKeyAuthentic", "SessionIdFixed", "AlteredAborts"]
 ALLF = {"hostkey", "pub", "sig", "sigalg", "group"}
 FIELD_ALTS = {"none": ["none"], "hostkey": ["hostkey_swap", "hostkey_bits"], "pub": ["pub", "pub_valid"],
-              "sig": ["sig_bits"], "sigalg": ["sig_alg"], "group": ["gex_p", "gex_g"]}
+              "sig": ["sig_bits", "sig_other_data", "sig_other_key"], "sigalg": ["sig_alg"], "group": ["gex_p", "gex_g"]}
 MUTS = [("skip_verify", "Agreement|AlteredAborts"), ("sid_overwrite", "SessionIdFixed"),
-        ("ignore_sig_alg", "AlteredAborts"), ("verify_before_hash_binding", "Agreement|AlteredAborts")]
+        ("ignore_sig_alg", "AlteredAborts"), ("verify_before_hash_binding", "Agreement|AlteredAborts"),
+        ("verify_only_new_key", "Agreement|AlteredAborts|HostKeyAuthentic")]
 
 
 def consts(gex, maxrekey, mut="none"):
@@ -36,63 +37,78 @@ def run(c):
         got = r.printed("CASE")
         if not got or not any(x[3] == "aborted" for x in got) or not any(x[3] == "done" and x[2] == maxrekey for x in got):
             raise Machinery("Kex model (gex=%s) does not reach both outcomes" % gex)
+        if not any(x[3] == "aborted" and x[2] == maxrekey for x in got):
+            raise Machinery("Kex model (gex=%s) never alters the last re-exchange" % gex)
         cases[gex] = sorted({(x[1], x[2], x[3]) for x in got})
     if q:       # the fixed-group model is the group-exchange model without the group field (checked in the thorough tier)
         cases[False] = [x for x in cases[True] if x[0] != "group"]
     muts = MUTS + [("sid_overwrite", "SidNeverChanges|<temporal>")]
     for mut, inv in ([muts[c.seed % len(muts)]] if q else muts):
         prop = inv.startswith("SidNever")
-        c.mc("Kex", cfg_text(constants=consts(True, 1, mut), invariants=[] if prop else INVS,
+        c.mc("Kex", cfg_text(constants=consts(True, 2, mut), invariants=[] if prop else INVS,
                              properties=["SidNeverChanges"] if prop else []),
              expect=inv, name="seeded design error " + mut + (" (action property)" if prop else ""), workers=1)
     stage["model_s"] = round(time.time() - t0, 1)
 
-    # ---- RP: every emitted scenario on real Transports
+    # ---- RP: every emitted scenario on real Transports.  A case is (altered field | none, n, outcome): for an
+    # honest session n = number of re-exchanges, otherwise n = index of the exchange whose reply is altered
     algs = list(drv.HOSTKEY_ALGS)
-    plan = []        # (kex, hostalg, alter, rekeys, model outcome)
+    plan = []        # (kex, hostalg, alter, n, model outcome)
+    fams = {}
+    for kex in drv.KEX_NAMES:
+        fams.setdefault(drv.KEX_FAMILY[kex], []).append(kex)
     if q:
-        seen_alt = set()
         k_off, a_off = rnd.randrange(10), rnd.randrange(7)
         for i, kex in enumerate(drv.KEX_NAMES):
             gex = drv.KEX_FAMILY[kex] == "gex"
             honest = [x for x in cases[gex] if x[0] == "none"]
             plan.append((kex, algs[(i + a_off) % 7], "none", honest[(i + k_off) % len(honest)][1], "done"))
-        fams = {}
-        for kex in drv.KEX_NAMES:
-            fams.setdefault(drv.KEX_FAMILY[kex], []).append(kex)
         j = 0
-        for fam, names in sorted(fams.items()):
-            for fld, rk, out in cases[fam == "gex"]:
+        for fam, names in sorted(fams.items()):          # first exchange: every alteration once per kex family
+            for fld, n, out in cases[fam == "gex"]:
+                if fld == "none" or n != 0:
+                    continue
                 for alt in FIELD_ALTS[fld]:
-                    if alt == "none":
-                        continue
-                    plan.append((names[(j + k_off) % len(names)], algs[(j + a_off) % 7], alt, rk, out))
-                    seen_alt.add(alt)
+                    plan.append((names[(j + k_off) % len(names)], algs[(j + a_off) % 7], alt, 0, out))
                     j += 1
+        for fld, n, out in cases[True]:                  # re-exchanges: every alteration once per exchange index
+            if fld == "none" or n == 0:
+                continue
+            for alt in FIELD_ALTS[fld]:
+                plan.append((drv.KEX_NAMES[(j + k_off) % 10], algs[(j + a_off) % 7], alt, n, out))
+                j += 1
     else:
-        for kex in drv.KEX_NAMES:
+        for ki, kex in enumerate(drv.KEX_NAMES):
             for ai, alg in enumerate(algs):
-                for fld, rk, out in cases[drv.KEX_FAMILY[kex] == "gex"]:
-                    if fld == "none" and rk != (ai + len(kex)) % (maxrekey + 1):
-                        continue          # one honest session per pair; the number of re-exchanges rotates
+                j = 0
+                for fld, n, out in cases[drv.KEX_FAMILY[kex] == "gex"]:
+                    if fld == "none":
+                        if n == (ai + len(kex)) % (maxrekey + 1):
+                            plan.append((kex, alg, "none", n, out))   # one honest session per pair; re-exchanges rotate
+                        continue
                     for alt in FIELD_ALTS[fld]:
-                        plan.append((kex, alg, alt, rk, out))
+                        j += 1
+                        # first exchange: everything; re-exchanges: each alteration at one rotating index, half of
+                        # the alterations per (kex, algorithm) pair
+                        if n == 0 or (n == 1 + (ki + ai + j) % maxrekey and (ki + ai + j // maxrekey) % 2 == 0):
+                            plan.append((kex, alg, alt, n, out))
     records, meta = [], []
     for kex, alg, alt, rk, out in plan:
-        rec = drv.run_kex(kex, alg, alt, rekeys=rk, rnd=rnd)
+        rec = drv.run_kex(kex, alg, alt, rekeys=rk, rnd=rnd, at=0 if alt == "none" else rk)
         if alt == "none":
             if not (rec["client_ok"] and rec["server_ok"]) or rec["rekeys"] != rk:
                 raise Machinery("honest handshake %s/%s did not complete (%d of %d re-exchanges): %r" %
                                 (kex, alg, rec["rekeys"], rk, rec["errors"]))
-        elif not rec["applied"]:
-            raise Machinery("alteration %s was not applied on %s/%s" % (alt, kex, alg))
+        elif not rec["applied"] or len(rec["exchanges"]) != rk + 1 or not all(x["c_done"] for x in rec["exchanges"][:rk]):
+            raise Machinery("alteration %s was not applied in exchange %d of %s/%s (%d exchanges seen, errors %r)" %
+                            (alt, rk, kex, alg, len(rec["exchanges"]), rec["errors"]))
         got = "done" if rec["exchanges"][-1]["c_done"] else "aborted"
         if got != out:
             c.conformance("C_outcome_differs_from_model:%s" % alt, "%s/%s %s: client %s, model %s" % (kex, alg, alt, got, out))
         records.append({k: v for k, v in rec.items() if k != "errors"})
         meta.append(rec)
         c.case(key="%s|%s|%s|%d" % (kex, alg, alt, rk),
-               sample={"kex": kex, "hostkey_alg": alg, "altered": alt, "re_exchanges": rk, "client": got,
+               sample={"kex": kex, "hostkey_alg": alg, "altered": alt, "exchange_index_or_re_exchanges": rk, "client": got,
                        "client_error": rec["errors"].get("client", "")} if len(c.samples) < 5 and (alt != "none" or rk) else None)
     stage["handshakes_s"] = round(time.time() - t0, 1)
     c.extra["exchanges"] = sum(len(r["exchanges"]) for r in records)
@@ -108,19 +124,20 @@ def run(c):
 
     def describe(tid, clause, row):
         rec = meta[tid - 1]
-        key = clause if clause in ("P_session_id_changed",) else "%s:%s" % (clause, rec["alter"])
-        what = "%s / %s, altered field %s, exchange %d: clause %s fails (%s; client error: %s)" % (
-            rec["kex"], rec["hostalg"], rec["alter"], row[2], clause, rec["exchanges"][min(row[2], len(rec["exchanges"]) - 1)],
+        key = clause if clause in ("P_session_id_changed",) else "%s:%s%s" % (
+            clause, rec["alter"], ":rekey" if rec["alter"] != "none" and rec["alter_at"] > 0 else "")
+        what = "%s / %s, altered field %s (in exchange %d), exchange %d: clause %s fails (%s; client error: %s)" % (
+            rec["kex"], rec["hostalg"], rec["alter"], rec["alter_at"], row[2], clause, rec["exchanges"][min(row[2], len(rec["exchanges"]) - 1)],
             rec["errors"].get("client", "none"))
         return key, what, {"kex": rec["kex"], "hostalg": rec["hostalg"], "alter": rec["alter"], "rekeys": rec["rekeys"],
                            "record": rec}
     c.verdicts(res["VERDICT"], describe)
     stage["trace_validation_s"] = round(time.time() - t0, 1)
     c.extra["stage_clock"] = stage
-    c.rule = ("scenarios = (altered reply field | none, number of re-exchanges) emitted by TLC from Kex.tla; each run as a real session for "
-              + ("every kex method once, every host-key algorithm, every alteration once per kex family" if q else
-                 "every kex method x host-key algorithm x alteration (honest sessions with 0..%d re-exchanges)" % maxrekey)
-              + "; distinct = (kex, host-key algorithm, alteration, re-exchanges)")
-    c.assumptions = ["re-exchanges are not attacked (they are encrypted and MACed: C02)",
+    c.rule = ("scenarios = (altered reply field | none, index of the altered exchange | number of re-exchanges) emitted by TLC from Kex.tla; each run as a real session: "
+              + ("every kex method once, every host-key algorithm; first exchange: every alteration once per kex family; every re-exchange index: every alteration once" if q else
+                 "every kex method x host-key algorithm: one honest session (0..%d re-exchanges), every alteration in the first exchange, half of the alterations in one re-exchange each (index and half rotate over the pairs)" % maxrekey)
+              + "; distinct = (kex, host-key algorithm, alteration, exchange index)")
+    c.assumptions = ["alterations of a re-exchange are made at the server end (the harness owns the server; on the wire they are encrypted and MACed: C02); the gex group is altered in the first exchange only",
                      "group exchange uses published safe primes (RFC 2409/3526) installed as the server's modulus pack",
                      "an alteration changes the value of one field as delivered to the client; encodings are left canonical"]
